@@ -5,7 +5,7 @@ import os
 
 from .. import AnalysisError
 from ..model import fold_const, dotted_name
-from ..report import ob_ok, ob_fail, VERIF
+from ..report import ob_ok, ob_fail, ob_undecided, VERIF
 
 
 def _spec(name):
@@ -339,4 +339,62 @@ def tab_bond_types(repo, tier="quick"):
     else:
         obs.append(ob_ok("TAB.bond-types", where=where, construct="BOND_TYPE_MAP", instance="map",
                          reason="orders 0, 1, 1.5, 2, 3, 4 map to ZERO, SINGLE, AROMATIC, DOUBLE, TRIPLE, QUADRUPLE"))
+    return obs
+
+
+NODE_TOKEN_SAMPLES = ["[#A]", "[#PEO]", "[#A1b_2]", "[#A;0.5]", "[#A;q=1;w=0.5]", "[#A;type=SP1:a]", "[#A;label=x/y]", "[#A;note=a b]",
+                      "[#A;c=*]", "[#A;k=(1,2)]", "[#A;k=+1]", "[#A;k=-1.5]", "[#A;k=a@b]", "[#A;k='q']", "[#A;x=R;lab=C1-C2]", "[#A;k=50%]"]
+
+
+def tab_node_token(repo, tier="quick"):
+    """C14 / C04: the regular expression that finds node tokens in the base-graph string takes everything between `[#` and
+    the next `]` as one token, whatever characters an annotation value is written with, and stops at that `]`.  The pattern
+    is read from the source as a constant and its language is tested with the regex engine on sample tokens; nothing of
+    the package is run."""
+    import re
+    from ..model import fold_const
+    fi = repo.function("read_cgsmiles:read_cgsmiles")
+    fl = fi.flow
+    oid = "TAB.node-token"
+    pats = []
+    for call, nid in fl.calls():
+        ct = fl.canon(call, nid)
+        if ct[2] != ("ext", "re.finditer") or len(ct[3]) < 2 or ct[3][1] != ("param", fi.positional_params[0]):
+            continue
+        a0 = call.args[0] if call.args else None
+        lit = None
+        try:
+            lit = fold_const(a0, fi.module)
+        except (ValueError, TypeError, KeyError):
+            if isinstance(a0, ast.Subscript) and isinstance(a0.value, ast.Name) and a0.value.id in fi.module.constants:
+                try:
+                    d = fold_const(fi.module.constants[a0.value.id], fi.module)
+                    k = fold_const(a0.slice, fi.module)
+                    lit = d.get(k) if isinstance(d, dict) else None
+                except (ValueError, TypeError):
+                    lit = None
+        pats.append((call, lit))
+    if not pats:
+        raise AnalysisError("anchor vanished: read_cgsmiles no longer scans its argument with re.finditer", fi.where())
+    obs = []
+    for call, lit in pats:
+        if not isinstance(lit, str):
+            obs.append(ob_undecided(oid, fi, call, construct="node token pattern is not a constant", instance="pattern", reason="cannot read the regular expression"))
+            continue
+        try:
+            rx = re.compile(lit)
+        except re.error as err:
+            obs.append(ob_fail(oid, fi, call, construct="pattern %r" % lit, instance="pattern", reason="not a valid regular expression: %s" % err))
+            continue
+        bad = []
+        for tok in NODE_TOKEN_SAMPLES:
+            text = "{" + tok + "=" + tok + "}"
+            found = [m.group(0) for m in rx.finditer(text)]
+            if found != [tok, tok]:
+                bad.append((tok, found))
+        (obs.append(ob_fail(oid, fi, call, construct="pattern %r on %r finds %r" % (lit, "{%s=%s}" % (bad[0][0], bad[0][0]), bad[0][1]), instance="pattern",
+                            reason="a node whose annotation uses these characters is not found as one token: the node is skipped (its neighbours get "
+                                   "bonded to each other) or its annotations are cut")) if bad else
+         obs.append(ob_ok(oid, fi, call, construct="pattern %r" % lit, instance="pattern",
+                          reason="%d sample tokens with free-form annotation values are each found as one token" % len(NODE_TOKEN_SAMPLES))))
     return obs
